@@ -38,8 +38,17 @@ Ltac atomic c :=
   | (if _ then _ else _) => fail
   | _ => idtac
   end.
+(** integer tests first, decided by their specifications (impossible combinations closed by lia: [n < t] and
+    [not (n >= t)], [len w > 0] and [len w <> 0], ... are the same test); only then the float tests, syntactically.
+    No law about the arithmetic [N] is used: lia sees integers only. *)
+Ltac zphase :=
+  repeat (match goal with
+          | |- context [(?a =? ?b)%Z] => destruct (Z.eqb_spec a b)
+          | |- context [(?a <? ?b)%Z] => destruct (Z.ltb_spec a b)
+          | |- context [(?a <=? ?b)%Z] => destruct (Z.leb_spec a b)
+          end; try (exfalso; lia); cbv beta iota zeta).
 Ltac split_ifs :=
-  rewrite ?Z.leb_antisym; unfold pymax, pymin, andb, orb, negb; cbv beta iota zeta;
+  rewrite ?Z.leb_antisym; unfold pymax, pymin, andb, orb, negb; cbv beta iota zeta; zphase;
   repeat (match goal with |- context [if ?c then _ else _] => atomic c; destruct c end; cbv beta iota zeta).
 
 (** The generic machine (Lifecycle.v) run on two kernels that are step-for-step related gives related states:
